@@ -446,6 +446,8 @@ def rule_factories(ctx):
                 env = {prm[0]: key}
                 if len(prm) > 1:
                     env[prm[1]] = length
+                for cn_ in mod.classes:   # the implementations are first-class values too (`cls = A if .. else B; cls(key)`)
+                    env[cn_] = Sym(cn_, methods={"__call__": (lambda *a_, _n=cn_, **k_: default(_n, list(a_), k_))})
                 t = Tiny(env, default_call=default)
                 r = t.run([x for x in fn.node.body if not (isinstance(x, ast.Expr) and isinstance(x.value, ast.Constant))])
                 want = "XorMaskerSimple" if (length is None or length < 128) else "XorMaskerShifted1"
